@@ -67,6 +67,7 @@ func keyFor(label string) *Key {
 // World is the genesis configuration shared by all replicas of a run.
 type World struct {
 	Admins   int    `json:"admins"`    // 1..4
+	Normal   int    `json:"normal"`    // how many of them (the last ones) are ordinary weight-1 admins; admin 0 is always a super admin
 	GasPrice uint64 `json:"gas_price"` // 0, 1, 50000
 	Audit    bool   `json:"audit"`     // executor.enable_audit
 	Balance  string `json:"balance"`   // genesis admin balance
@@ -95,7 +96,11 @@ func (w World) config(proofType string) *repo.Config {
 		expr = "a > 0.5 * t"
 	}
 	for i := 0; i < w.Admins; i++ {
-		cfg.Genesis.Admins = append(cfg.Genesis.Admins, &repo.Admin{Address: w.adminKey(i).Addr.String(), Weight: 2})
+		weight := uint64(repo.SuperAdminWeight)
+		if i > 0 && i >= w.Admins-w.Normal {
+			weight = repo.NormalAdminWeight
+		}
+		cfg.Genesis.Admins = append(cfg.Genesis.Admins, &repo.Admin{Address: w.adminKey(i).Addr.String(), Weight: weight})
 	}
 	for _, m := range []string{"appchain_mgr", "proposal_strategy_mgr", "rule_mgr", "node_mgr", "service_mgr", "role_mgr", "dapp_mgr"} {
 		cfg.Genesis.Strategy = append(cfg.Genesis.Strategy, &repo.Strategy{Module: m, Typ: "SimpleMajority", Extra: expr})
